@@ -1,9 +1,320 @@
 /-
-  QEModel.C13 — executable model for property C13 (stub; to be filled in).
+  QEModel.C13 — AR(1) discretisations and chain estimation.
+  Mirrors: quantecon/markov/approximation.py (rouwenhorst 101-152, tauchen 209-247,
+  std_norm_cdf, _fill_tauchen), quantecon/markov/estimate.py (estimate_mc,
+  _count_transition_frequencies, fit_discrete_mc), numpy.linspace (the scalar path).
+  External functions are parameters: `sqrt`, `erfc`.
 -/
 import QEModel.Base
+import QEModel.C16
 namespace QE.C13
+open QE
 
-def handle (_toks : List String) : String := "bad-op"
+/-- `Float` has no `NatCast` in core; `Float.ofNat` is exact below 2^53. -/
+local instance : NatCast Float := ⟨Float.ofNat⟩
+
+section arith
+variable {α : Type} [Zero α] [One α] [Add α] [Sub α] [Mul α] [Div α] [Neg α] [NatCast α]
+  [LT α] [LE α] [DecidableLT α] [DecidableLE α] [BEq α]
+
+/-! ### numpy.linspace(start, stop, num) for scalar start/stop, endpoint=True -/
+
+/-- `y = arange(num) * step + start` with `step = (stop-start)/(num-1)`; `y[-1] = stop`;
+    (`step == 0`: `y = arange(num)/div * delta + start`; `num ≤ 1`: `y = arange(num)*delta + start`). -/
+def linspace (start stop : α) (n : Nat) : List α :=
+  let delta := stop - start
+  if 1 < n then
+    let div : α := ((n - 1 : Nat) : α)
+    let step := delta / div
+    (List.range n).map fun (i : Nat) =>
+      if i + 1 = n then stop
+      else if step == 0 then (i : α) / div * delta + start
+      else (i : α) * step + start
+  else (List.range n).map fun (i : Nat) => (i : α) * delta + start
+
+/-! ### rouwenhorst -/
+
+/-- `theta = np.array([[p, 1 - p], [1 - q, q]])` -/
+def rouwBaseFn (p q : α) (i j : Nat) : α :=
+  if i = 0 then (if j = 0 then p else 1 - p) else (if j = 0 then 1 - q else q)
+
+/-- the `elif n > 2` branch of `row_build_mat`, entry `(i, j)` of the `(k+1)×(k+1)` result from
+    the `k×k` matrix `T` (`k = n-1`): `p1 + p2 + p3 + p4`, rows `1 .. n-2` halved. -/
+def rouwStepFn (k : Nat) (p q : α) (T : Nat → Nat → α) (i j : Nat) : α :=
+  let p1 := if i < k ∧ j < k then p * T i j else 0
+  let p2 := if i < k ∧ 1 ≤ j then (1 - p) * T i (j - 1) else 0
+  let p3 := if 1 ≤ i ∧ j < k then (1 - q) * T (i - 1) j else 0
+  let p4 := if 1 ≤ i ∧ 1 ≤ j then q * T (i - 1) (j - 1) else 0
+  let s := p1 + p2 + p3 + p4
+  if 1 ≤ i ∧ i < k then s / (1 + 1) else s
+
+/-- `row_build_mat(m + 2, p, q)` -/
+def rouwMat (p q : α) : Nat → M α
+  | 0 => M.tab 2 2 (rouwBaseFn p q)
+  | m + 1 =>
+    let T := rouwMat p q m
+    M.tab (m + 3) (m + 3) (rouwStepFn (m + 2) p q T.get)
+
+/-- `row_build_mat(n, p, q)`; `none` = the `ValueError` of the `else` branch -/
+def rowBuildMat (n : Nat) (p q : α) : Option (M α) :=
+  if n < 2 then none else some (rouwMat p q (n - 2))
+
+/-- `y_sd = sqrt(sigma**2 / (1 - rho**2))` -/
+def ySd (sqrt : α → α) (rho sigma : α) : α := sqrt (sigma * sigma / (1 - rho * rho))
+
+/-- grid of `rouwenhorst`: `linspace(-psi, psi, n) + mu/(1-rho)`, `psi = y_sd * sqrt(n-1)` -/
+def rouwGrid (sqrt : α → α) (n : Nat) (rho sigma mu : α) : List α :=
+  let psi := ySd sqrt rho sigma * sqrt (((n - 1 : Nat) : α))
+  let ubar := psi
+  let lbar := -ubar
+  (linspace lbar ubar n).map (· + mu / (1 - rho))
+
+/-- `rouwenhorst(n, rho, sigma, mu)` → `(P, state_values)` -/
+def rouwenhorst (sqrt : α → α) (n : Nat) (rho sigma mu : α) : Option (M α × List α) :=
+  let p := (1 + rho) / (1 + 1)
+  let q := p
+  match rowBuildMat n p q with
+  | none => none
+  | some th => some (th, rouwGrid sqrt n rho sigma mu)
+
+/-! ### tauchen -/
+
+/-- `std_norm_cdf(x) = 0.5 * erfc(-x / sqrt(2))` -/
+def stdNormCdf (erfc : α → α) (sqrt2 : α) (x : α) : α := (1 / (1 + 1)) * erfc (-x / sqrt2)
+
+/-- upper / lower standardised cell boundary of cell `j` seen from state `i` -/
+def tauArgUp (x : List α) (rho sigma h : α) (i j : Nat) : α :=
+  (x.getD j 0 - rho * x.getD i 0 + h) / sigma
+def tauArgLo (x : List α) (rho sigma h : α) (i j : Nat) : α :=
+  (x.getD j 0 - rho * x.getD i 0 - h) / sigma
+
+/-- `_fill_tauchen`, entry `(i, j)` (the write to column `n-1` comes after the one to column 0) -/
+def tauchenEntry (Φ : α → α) (x : List α) (n : Nat) (rho sigma h : α) (i j : Nat) : α :=
+  if j + 1 = n then 1 - Φ (tauArgLo x rho sigma h i j)
+  else if j = 0 then Φ (tauArgUp x rho sigma h i j)
+  else Φ (tauArgUp x rho sigma h i j) - Φ (tauArgLo x rho sigma h i j)
+
+def fillTauchen (Φ : α → α) (x : List α) (n : Nat) (rho sigma h : α) : M α :=
+  M.tab n n (tauchenEntry Φ x n rho sigma h)
+
+/-- demeaned grid and half step of `tauchen` -/
+def tauchenX (sqrt : α → α) (n : Nat) (rho sigma : α) (nstd : Nat) : List α × α :=
+  let stdY := ySd sqrt rho sigma
+  let xmax := (nstd : α) * stdY
+  let xmin := -xmax
+  let x := linspace xmin xmax n
+  let step := (xmax - xmin) / (((n - 1 : Nat) : α))
+  let half := (1 / (1 + 1)) * step
+  (x, half)
+
+/-- `tauchen(n, rho, sigma, mu, n_std)` → `(P, state_values)` -/
+def tauchen (sqrt erfc : α → α) (n : Nat) (rho sigma mu : α) (nstd : Nat) : M α × List α :=
+  let (x, half) := tauchenX sqrt n rho sigma nstd
+  let P := fillTauchen (stdNormCdf erfc (sqrt (1 + 1))) x n rho sigma half
+  let mu' := mu / (1 - rho)
+  (P, x.map (· + mu'))
+
+end arith
+
+/-! ### estimate_mc -/
+
+section est
+variable {β : Type} [LT β] [DecidableLT β]
+
+/-- insertion into a strictly increasing list (no duplicate is created) -/
+def insSorted (a : β) : List β → List β
+  | [] => [a]
+  | b :: t => if a < b then a :: b :: t else if b < a then b :: insSorted a t else b :: t
+
+/-- `np.unique(X)`: the sorted distinct values -/
+def uniqueSorted (X : List β) : List β := X.foldr insSorted []
+
+/-- `np.unique(…, return_inverse=True)`: position of `a` among the sorted distinct values
+    = number of distinct values below it -/
+def indexIn (S : List β) (a : β) : Nat := S.countP (fun b => decide (b < a))
+
+end est
+
+/-- `trans_counter[i, j] += 1` -/
+def bump (C : Nat → Nat → Nat) (i j : Nat) : Nat → Nat → Nat :=
+  fun a b => if a = i ∧ b = j then C a b + 1 else C a b
+
+/-- the loop of `_count_transition_frequencies`: current state `i`, remaining series -/
+def countLoop : (Nat → Nat → Nat) → Nat → List Nat → (Nat → Nat → Nat)
+  | C, _, [] => C
+  | C, i, j :: rest => countLoop (bump C i j) j rest
+
+/-- `_count_transition_frequencies(index_series, zeros)` (non-empty series) -/
+def countTransitions (idx : List Nat) : Nat → Nat → Nat :=
+  match idx with
+  | [] => fun _ _ => 0
+  | i0 :: rest => countLoop (fun _ _ => 0) i0 rest
+
+/-- `P.sum(1)[i]` -/
+def rowTotal (C : Nat → Nat → Nat) (n i : Nat) : Nat := ((List.range n).map (C i)).sum
+
+structure Est (β : Type) where
+  states : List β
+  idx : List Nat
+  counts : List (List Nat)
+  totals : List Nat
+deriving Repr
+
+/-- the integer part of `estimate_mc`: states, inverse indices, transition counts, row totals -/
+def estimateCounts {β : Type} [LT β] [DecidableLT β] (X : List β) : Est β :=
+  let S := uniqueSorted X
+  let idx := X.map (indexIn S)
+  let n := S.length
+  -- materialise the counter once (the closure chain of `countLoop` is O(T) per read)
+  let C := countTransitions idx
+  let counts := (List.range n).map fun i => (List.range n).map fun j => C i j
+  let Cm : Nat → Nat → Nat := fun i j => (counts.getD i []).getD j 0
+  ⟨S, idx, counts, (List.range n).map (rowTotal Cm n)⟩
+
+/-- `P /= P.sum(1)[:, np.newaxis]` then the `MarkovChain` validation: a state that is never
+    left gives a `0/0 = nan` row and `ValueError('P must be nonnegative')` (`none`). -/
+def estimateP {α : Type} [NatCast α] [Div α] (counts : List (List Nat)) (totals : List Nat) :
+    Option (List (List α)) :=
+  if totals.any (· == 0) then none
+  else some ((counts.zip totals).map fun ((row, t) : List Nat × Nat) => row.map fun (c : Nat) => (c : α) / (t : α))
+
+/-- `estimate_mc(X)` → `(state_values, P)` -/
+def estimateMc {β α : Type} [LT β] [DecidableLT β] [NatCast α] [Div α] (X : List β) :
+    Option (List β × List (List α)) :=
+  let e := estimateCounts X
+  match estimateP (α := α) e.counts e.totals with
+  | none => none
+  | some P => some (e.states, P)
+
+/-! ### fit_discrete_mc -/
+
+/-- `cartesian_nearest_index(X, grids, order)` row by row -/
+def nearestIndices (grids : List (List Rat)) (X : List (List Rat)) (orderF : Bool) : List Nat :=
+  X.map fun x => QE.C16.nearestIndex grids x orderF
+
+/-- `fit_discrete_mc(X, grids, order)` → `(state_values, P)`;
+    `state_values = cartesian(grids, order)[estimate_mc(X_indices).state_values]` -/
+def fitDiscreteMc {α : Type} [NatCast α] [Div α] (X : List (List Rat)) (grids : List (List Rat))
+    (orderF : Bool) : Option (List (List Rat) × List (List α)) :=
+  match estimateMc (α := α) (nearestIndices grids X orderF) with
+  | none => none
+  | some (sv, P) =>
+    let prod := QE.C16.cartesian grids orderF
+    some (sv.map (fun k => prod.getD k []), P)
+
+/-! ### line protocol -/
+
+/-- `⌊q·2^80⌋` — a fixed-point rendering of big rationals (absolute error < 2^-80) -/
+def showFix80 (q : Rat) : String := toString ((q * ((2 ^ 80 : Nat) : Rat)).floor)
+
+def kvFloat (r : List String) (k : String) : Option Float := (kv r k).bind parseFloat?
+
+/-- `arg:val,arg:val,…` (doubles as bit patterns) -/
+def parseTable? (s : String) : Option (List (UInt64 × Float)) :=
+  if s = "-" ∨ s = "" then some [] else
+  (s.splitOn ",").mapM fun t =>
+    match t.splitOn ":" with
+    | [a, v] => match parseBits? a, parseFloat? v with
+      | some a, some v => some (a, v)
+      | _, _ => none
+    | _ => none
+
+/-- table look-up standing for an external function; a missing key gives NaN -/
+def lookupFn (tbl : List (UInt64 × Float)) (x : Float) : Float :=
+  match tbl.find? (fun e => e.1 == x.toBits) with
+  | some e => e.2
+  | none => 0.0 / 0.0
+
+/-- the arguments at which `erfc` is evaluated by `_fill_tauchen`, row-major, per cell in the
+    order of evaluation -/
+def tauchenErfcArgs (x : List Float) (n : Nat) (rho sigma h sqrt2 : Float) : List Float :=
+  (List.range n).flatMap fun i => (List.range n).flatMap fun j =>
+    let up := -(tauArgUp x rho sigma h i j) / sqrt2
+    let lo := -(tauArgLo x rho sigma h i j) / sqrt2
+    if j + 1 = n then [lo] else if j = 0 then [up] else [up, lo]
+
+def showEst (e : Est (List Rat)) : String :=
+  "states=" ++ showMat showRat e.states ++ " idx=" ++ showList toString e.idx ++
+  " counts=" ++ showMat toString e.counts ++ " totals=" ++ showList toString e.totals
+
+def handle (toks : List String) : String :=
+  match toks with
+  | "linspace" :: r =>
+    match kv r "mode", kvNat r "n" with
+    | some "float", some n =>
+      match kvFloat r "a", kvFloat r "b" with
+      | some a, some b => showList showFloatBits (linspace a b n)
+      | _, _ => "bad-op"
+    | some "rat", some n =>
+      match kvRat r "a", kvRat r "b" with
+      | some a, some b => showList showRat (linspace a b n)
+      | _, _ => "bad-op"
+    | _, _ => "bad-op"
+  | "rouw" :: r =>
+    match kv r "mode", kvNat r "n" with
+    | some "float", some n =>
+      match kvFloat r "rho", kvFloat r "sigma", kvFloat r "mu" with
+      | some rho, some sigma, some mu =>
+        match rouwenhorst Float.sqrt n rho sigma mu with
+        | none => "ERR:ValueError"
+        | some (P, g) => "P=" ++ showMat showFloatBits P.toRows ++ " grid=" ++ showList showFloatBits g
+      | _, _, _ => "bad-op"
+    | some "rat", some n =>
+      match kvRat r "rho", kvRat r "sigma", kvRat r "mu", kvRat r "sd", kvRat r "rt" with
+      | some rho, some sigma, some mu, some sd, some rt =>
+        -- `sqrt` is external: the two values the code needs are supplied by the caller
+        let sq : Rat → Rat := fun a => if a == (((n - 1 : Nat) : Rat)) then rt else sd
+        match rouwenhorst sq n rho sigma mu with
+        | none => "ERR:ValueError"
+        | some (P, g) => "P=" ++ showMat showFix80 P.toRows ++ " grid=" ++ showList showFix80 g
+      | _, _, _, _, _ => "bad-op"
+    | _, _ => "bad-op"
+  | "rouwmat" :: r =>
+    -- exact `row_build_mat(n, p, q)` for rational p, q (general p ≠ q)
+    match kvNat r "n", kvRat r "p", kvRat r "q" with
+    | some n, some p, some q =>
+      match rowBuildMat n p q with
+      | none => "ERR:ValueError"
+      | some P => showMat showRat P.toRows
+    | _, _, _ => "bad-op"
+  | "tauchen_args" :: r =>
+    match kvNat r "n", kvFloat r "rho", kvFloat r "sigma", kvNat r "nstd" with
+    | some n, some rho, some sigma, some nstd =>
+      let (x, half) := tauchenX Float.sqrt n rho sigma nstd
+      showList showFloatBits (tauchenErfcArgs x n rho sigma half (Float.sqrt (1 + 1)))
+    | _, _, _, _ => "bad-op"
+  | "tauchen" :: r =>
+    match kvNat r "n", kvFloat r "rho", kvFloat r "sigma", kvFloat r "mu", kvNat r "nstd",
+          (kv r "erfc").bind parseTable? with
+    | some n, some rho, some sigma, some mu, some nstd, some tbl =>
+      let (P, g) := tauchen Float.sqrt (lookupFn tbl) n rho sigma mu nstd
+      "P=" ++ showMat showFloatBits P.toRows ++ " grid=" ++ showList showFloatBits g
+    | _, _, _, _, _, _ => "bad-op"
+  | "tauchen_grid" :: r =>
+    match kvNat r "n", kvRat r "rho", kvRat r "sigma", kvRat r "mu", kvNat r "nstd", kvRat r "sd" with
+    | some n, some rho, some sigma, some mu, some nstd, some sd =>
+      let (x, half) := tauchenX (fun _ => sd) n rho sigma nstd
+      "grid=" ++ showList showFix80 (x.map (· + mu / (1 - rho))) ++ " half=" ++ showFix80 half
+    | _, _, _, _, _, _ => "bad-op"
+  | "estimate" :: r =>
+    match kvRatMat r "X" with
+    | some X =>
+      if X.isEmpty then "ERR:empty" else
+      let e := estimateCounts X
+      match estimateP (α := Rat) e.counts e.totals with
+      | none => showEst e ++ " P=ERR:ValueError"
+      | some P => showEst e ++ " P=" ++ showMat showRat P
+    | none => "bad-op"
+  | "fit" :: r =>
+    match kvRatMat r "X", kvRatMat r "grids", kv r "order" with
+    | some X, some grids, some o =>
+      if X.isEmpty ∨ (o ≠ "C" ∧ o ≠ "F") then "bad-op" else
+      let idx := nearestIndices grids X (o = "F")
+      match fitDiscreteMc (α := Rat) X grids (o = "F") with
+      | none => "idx=" ++ showList toString idx ++ " ERR:ValueError"
+      | some (sv, P) => "idx=" ++ showList toString idx ++ " states=" ++ showMat showRat sv ++
+          " P=" ++ showMat showRat P
+    | _, _, _ => "bad-op"
+  | _ => "bad-op"
 
 end QE.C13
